@@ -110,7 +110,9 @@ func main() {
 	n := flag.Int("n", 2000, "number of requests / scripts")
 	flag.StringVar(&outDir, "out", "/verif/replays", "replay directory")
 	replay := flag.String("replay", "", "replay file")
+	knownPath := flag.String("known", "/verif/KNOWN_FINDINGS.jsonl", "known findings file")
 	flag.Parse()
+	listedKnown = hx.KnownNames(*knownPath)
 	start := time.Now()
 	sum = Summary{Mode: *mode, Seed: *seed, ByCommand: map[string]int{}, ReplyKinds: map[string]int{}}
 	if *replay != "" {
@@ -1281,6 +1283,16 @@ var lastReply hx.RV
 // knownWireFinding names the recorded finding a mismatching request falls under, if any:
 // ZREVRANGEBYSCORE key max min and ZRANGE key max min BYSCORE REV read their bounds as min max.
 func knownWireFinding(args []string) string {
+	if n := knownWireFindingName(args); n != "" && listedKnown[n] {
+		return n
+	}
+	return ""
+}
+
+// listedKnown: the findings the committed file lists (a deviation whose name is not listed is a violation)
+var listedKnown = map[string]bool{}
+
+func knownWireFindingName(args []string) string {
 	if len(args) < 4 {
 		return ""
 	}
